@@ -171,16 +171,34 @@ func main() {
 			guarded("close "+e, func() { u.Shutdown() })
 		})
 	}
+	// two long-lived upstreams of one hot endpoint on every node: concurrent requests select among the same
+	// upstreams at the same time
+	var hot []*psim.Upstream
+	for _, n := range nodes {
+		for i := 0; i < 2; i++ {
+			n := n
+			guarded("listen hot", func() {
+				ctx, cancel := context.WithTimeout(context.Background(), 10*time.Second)
+				defer cancel()
+				if u, err := psim.Listen(ctx, n.UpstreamAddr(), "hot", "hot", "", ""); err == nil {
+					hot = append(hot, u)
+				}
+			})
+		}
+	}
 	// proxied requests from every node (local selection, remote lookup, forwarding)
-	for w := 3; w < 6; w++ {
+	for w := 3; w < 8; w++ {
 		worker(w, func(r *rand.Rand) {
 			n := nodes[r.Intn(len(nodes))]
 			e := endpoints[r.Intn(len(endpoints))]
+			if r.Intn(2) == 0 {
+				e = "hot"
+			}
 			guarded("request "+e, func() { psim.Request(n.ProxyAddr(), "header", e, "GET", "/stress", nil, nil) })
 		})
 	}
 	// status reads
-	worker(6, func(r *rand.Rand) {
+	worker(8, func(r *rand.Rand) {
 		n := nodes[r.Intn(len(nodes))]
 		guarded("status reads", func() {
 			_, _ = n.UpstreamEndpoints("")
@@ -194,7 +212,7 @@ func main() {
 	// membership churn: a transient node joins the cluster, stays a while and leaves gracefully (join, pending
 	// promotion, leave and the corresponding watcher callbacks under load on the permanent nodes)
 	var churn atomic.Int64
-	worker(7, func(r *rand.Rand) {
+	worker(9, func(r *rand.Rand) {
 		id := fmt.Sprintf("z%d", churn.Add(1))
 		var t *psim.Node
 		guarded("transient node "+id+" start", func() {
@@ -209,6 +227,10 @@ func main() {
 	time.Sleep(time.Duration(sf.Seconds) * time.Second)
 	close(stop)
 	wg.Wait()
+	for _, u := range hot {
+		u := u
+		guarded("close hot", func() { u.Shutdown() })
+	}
 	// quiescence: nobody is connected any more
 	for _, n := range nodes {
 		n := n
